@@ -67,6 +67,8 @@ def run_group_shard(params, judge_name, nontrivial_fn, sample_fn=None, force=Non
             st["subscription_changes"] = sum(1 for e in H["events"] if e["op"] == "subscribe")
             st["coordinator_moves"] = len(H["coordinator_moves"])
             st["histories_pattern_subscription"] = 1 if any("pattern" in m for m in Pv["members"].values()) else 0
+            st["histories_read_committed_with_transactions"] = 1 if Pv.get("isolation") == "read_committed" else 0
+            st["histories_with_transactional_traffic"] = 1 if Pv.get("txn_traffic") else 0
             for k, v in st.items():
                 cnt[k] = cnt.get(k, 0) + v
             hits.update(H["fault_hits"])
